@@ -104,7 +104,7 @@ def declare(pep, rng, name, params, named):
     return pep.declare_function(get_class(name), **kwargs)
 
 
-def build_function(rng, name, nsamples=None, named=None, stationary_at=None):
+def build_function(rng, name, nsamples=None, named=None, stationary_at=None, t_samples=None):
     """fresh PEP; one function of class `name` with random recorded samples, through the real API:
     oracle / gradient / value / stationary_point / fixed_point / add_point, repeated evaluations at the same
     point, the same triplet object added twice, named and unnamed points.  `stationary_at` in
@@ -210,7 +210,7 @@ def build_function(rng, name, nsamples=None, named=None, stationary_at=None):
         if rng.random() < 0.25 and func.list_of_points:
             func.list_of_points[-1][0].set_name(rng.choice(POINT_NAMES))
     if name == "LinearOperator":
-        for _ in range(rng.choice([0, 1, 2, 3])):
+        for _ in range(rng.choice([0, 1, 2, 3]) if t_samples is None else t_samples):
             u = rand_point(rng, leaves)
             func.T.gradient(u)
             kinds.append("T.gradient")
